@@ -80,6 +80,7 @@ StackMovesQ(q) == LET d == T(q.lm, B) IN
   \cup {R(0, 0, B, B, "c")}
 ParamsStack == {PR(<<1, 2>>, <<2, 1>>, <<1, 8>>, lm, bf, FALSE, FALSE) :
                   lm \in {<<1, 2>>, <<1, 4>>, <<1, 1>>}, bf \in {<<1, 2>>, None}}
+ParamsStack3 == {q \in ParamsStack : q.bf = <<1, 2>>}
 ParamsStackV == {PR(<<1, 2>>, <<2, 1>>, <<1, 8>>, lm, bf, TRUE, FALSE) :
                   lm \in {<<1, 2>>, <<1, 4>>}, bf \in {<<1, 2>>, None}}
 
@@ -90,7 +91,7 @@ ColMovesT(q) == {D(g, 0, w, B, "c") : g \in {4, 8, 12}, w \in {B, 2 * B}}
                 \cup {C(g, d, w, B, "c") : g \in {4, 8, 16}, d \in {0, 0 - 4, 4}, w \in {B, 2 * B}}
 ParamsCols == {PR(<<1, 2>>, <<2, 1>>, <<1, 8>>, <<1, 4>>, bf, FALSE, FALSE) :
                  bf \in {<<0 - 1, 1>>, <<0 - 1, 2>>, <<0, 1>>, <<1, 2>>, <<1, 1>>, None}}
-ParamsCols3 == {q \in ParamsCols : q.bf \in {<<0, 1>>, <<1, 2>>, None}}
+ParamsCols3 == {q \in ParamsCols : q.bf \in {<<1, 2>>, None}}
 ParamsColsV == {PR(<<1, 2>>, <<2, 1>>, <<1, 8>>, <<1, 4>>, bf, TRUE, FALSE) : bf \in {<<0 - 1, 2>>, <<1, 2>>, None}}
 
 \* ------------------------------------------------------------------ figures (all_texts) on a small space
@@ -112,4 +113,9 @@ NoTr == {FALSE}
 BothTr == {FALSE, TRUE}
 PG512 == <<0, 0, 512, 512>>
 Scales28 == {2, 8}
+Scales2864 == {2, 8, 64}
+\* the smallest space that shows GridOrderTies: two overprinted glyphs (two lines with the same box when vertical
+\* detection is on) and a third line below; the grid separates them at scale 64 only
+ParamsOver == {Default(TRUE)}
+OverMoves(q) == {R(0 - 8, 0, B, B, "c"), D(3, 4, B, B, "c")}
 =============================================================================
